@@ -7,6 +7,7 @@ import Propka.Model.GroupsDriver
 import Propka.Model.HiddenDriver
 import Propka.Model.ProfilesDriver
 import Propka.Model.DetsDriver
+import Propka.Model.EnergyDriver
 /-! Line-protocol driver: one request per line `<module> <args…>`, one response line each. -/
 open Propka
 
@@ -21,6 +22,8 @@ def dispatch (ws : List String) : String :=
   | "hidden" :: r => Hidden.handle r
   | "prof" :: r => Profiles.handle r
   | "dets" :: r => Dets.handle r
+  | "energy" :: r => Energy.handle r
+  | "iter" :: r => Iter.handle r
   | "topup" :: r => TopUp.handle r
   | ["ping"] => "pong"
   | _ => "bad-op"
